@@ -178,8 +178,53 @@ def install(I):
     E["os.fsdecode"] = Builtin("os.fsdecode", lambda i, a, k: a[0].fields["s"] if isinstance(a[0], Obj) and "s" in a[0].fields else a[0])
     E["os.fspath"] = E["os.fsdecode"]
     E["os.PathLike"] = I.ext_models.get("pathlib.Path", obj)
+
+    # os.path functions that rewrite a path / string depending on the file system or the environment (symbolic links, variables, the
+    # current directory): uninterpreted functions str -> str -- nothing may be assumed about the result, in particular not result == argument
+    def _ospath(nm):
+        import z3 as _z3
+        f_ = _z3.Function("os_path_" + nm, _z3.StringSort(), _z3.StringSort())
+
+        def call(i, a, k):
+            x = a[0].fields["s"] if isinstance(a[0], Obj) and "s" in a[0].fields else a[0]
+            if isinstance(x, str):
+                x = SV(_z3.StringVal(x), "str")
+            if not (isinstance(x, SV) and x.ty == "str"):
+                raise Unsupported(f"os.path.{nm} of a non-string")
+            return SV(f_(x.z), "str")
+        return Builtin("os.path." + nm, call)
+    for _nm in ("realpath", "abspath", "expandvars", "expanduser", "normpath"):
+        E["os.path." + _nm] = _ospath(_nm)
     E["functools.cache"] = Builtin("cache", lambda i, a, k: __import__("pyvc.builtins_", fromlist=["CachedFunc"]).CachedFunc(a[0]))
     E["functools.partial"] = Builtin("partial", lambda i, a, k: Builtin("partial.call", (lambda f_, a0, k0: lambda i2, a2, k2: i2.call(f_, list(a0) + list(a2), {**k0, **k2}))(a[0], list(a[1:]), dict(k))))
+    def _reduce(i, a, k):
+        it = list(i.iterate(a[1]))
+        if len(a) > 2:
+            acc = a[2]
+        elif it:
+            acc, it = it[0], it[1:]
+        else:
+            i.raise_py("TypeError", "reduce() of empty iterable with no initial value")
+        for x in it:
+            acc = i.call(a[0], [acc, x], {})
+        return acc
+    E["functools.reduce"] = Builtin("reduce", _reduce)
+    import ast as _ast
+    for _nm, _op in (("or_", _ast.BitOr), ("and_", _ast.BitAnd), ("add", _ast.Add), ("sub", _ast.Sub), ("mul", _ast.Mult), ("xor", _ast.BitXor)):
+        if "operator." + _nm not in E:
+            E["operator." + _nm] = Builtin("operator." + _nm, (lambda op_: lambda i, a, k: i.binop(op_(), a[0], a[1]))(_op))
+    # contextlib.suppress(*exceptions): a context manager whose __exit__ swallows exactly instances of the listed classes
+    Suppress = mkcls("suppress")
+    Suppress.ns["__pyvc_new__"] = lambda i, cls, a, k: Obj(Suppress, {"excs": tuple(a)}, tag="suppress")
+    Suppress.ns["__enter__"] = Builtin("suppress.__enter__", lambda i, a, k: None)
+
+    def _suppress_exit(i, a, k):
+        et = a[1] if len(a) > 1 else None
+        if et is None:
+            return False
+        return any(c_ in getattr(et, "mro", []) for c_ in a[0].fields["excs"])
+    Suppress.ns["__exit__"] = Builtin("suppress.__exit__", _suppress_exit)
+    E["contextlib.suppress"] = Suppress
     E["functools.wraps"] = Builtin("wraps", lambda i, a, k: Builtin("wraps.deco", lambda i2, a2, k2: a2[0]))
     E["abc.abstractmethod"] = Builtin("abstractmethod", lambda i, a, k: a[0])
     E["abc.ABCMeta"] = ns["type"]
